@@ -355,10 +355,8 @@ Proof.
   - apply ref_inputs_spec.
   - apply (wf_from_vec bytes_eqb bytes_eqb_spec).
   - apply (items_from_vec bytes_eqb bytes_eqb_spec).
-  - unfold ws_partial_dedup, ws_partial_dedup_gen, some_nonempty. cbn [ws_native].
-    destruct (nonempty (t_native c)); [|constructor].
-    destruct (nonempty (dedup_clone bytes_eqb (t_native c))); [|constructor]. apply dedup_clone_nodup, bytes_eqb_spec.
-  - unfold ws_partial_dedup, ws_partial_dedup_gen. cbn [ws_data]. rewrite switch_is_repaired.
-    destruct (t_extra_datums c) as [|d l]; [constructor|].
-    destruct (nonempty _); [|constructor]. cbn. apply datum_dedup_emits_once.
+  - unfold ws_run, ws_step. rewrite switch_is_repaired. cbn [fold_left ws_step_gen ws_new ws_native ws_vkeys ws_boot ws_plutus ws_data].
+    destruct (nonempty (t_native c)); destruct (nonempty (pl_elems _)); cbn [ws_native]; try constructor; apply dedup_clone_nodup, bytes_eqb_spec.
+  - unfold ws_run, ws_step. rewrite switch_is_repaired. cbn [fold_left ws_step_gen ws_new ws_native ws_vkeys ws_boot ws_plutus ws_data].
+    destruct (nonempty (t_native c)); destruct (nonempty (pl_elems _)); cbn [ws_data pl_elems plist_dedup_gen]; try constructor; apply datum_dedup_emits_once.
 Qed.
